@@ -1,7 +1,7 @@
 (* Checkers evaluated by the correspondence run: each returns the indices of
    the cases on which the model and the output observed on the real Go code
    differ, or on which the specification-side predicate fails. *)
-From V Require Import Common.Base C03.Num C03.SpecOps.
+From V Require Import Common.Base C03.Num C03.SpecOps C03.Tree C03.Fold.
 
 Fixpoint mism_from {A} (f : A -> bool) (l : list A) (i : nat) : list nat :=
   match l with
@@ -26,3 +26,112 @@ Definition cmp_ok (c : list Z * list Z * bool * bool * bool) : bool :=
   Bool.eqb (d <? 0) lt && Bool.eqb (0 <? d) gt && Bool.eqb (d =? 0) eq
   && Bool.eqb (spec_string_lt a b) lt && Bool.eqb (spec_string_lt b a) gt.
 Definition check_cmp := mismatches cmp_ok.
+
+(* ---- expression trees ------------------------------------------------------ *)
+Definition unbound_h (ref : Z) : bool := 1000 <=? ref.
+
+Definition ptype_code (t : ptype) : Z :=
+  match t with
+  | PUnknown => 0 | PMixed => 1 | PNull => 2 | PUndefined => 3
+  | PBoolean => 4 | PNumber => 5 | PString => 6 | PBigInt => 7
+  end.
+
+Definition check_known_type := mismatches (fun c : expr * Z => let '(e, t) := c in ptype_code (known_type e) =? t).
+
+Definition triple_eqb (a b : bool * bool * bool) : bool :=
+  let '(a1, a2, a3) := a in let '(b1, b2, b3) := b in Bool.eqb a1 b1 && Bool.eqb a2 b2 && Bool.eqb a3 b3.
+Definition check_to_boolean :=
+  mismatches (fun c : expr * bool * bool * bool => let '(e, b, se, ok) := c in triple_eqb (to_boolean e) (b, se, ok)).
+Definition check_to_nullish :=
+  mismatches (fun c : expr * bool * bool * bool => let '(e, b, se, ok) := c in triple_eqb (to_nullish e) (b, se, ok)).
+Definition check_can_be_removed :=
+  mismatches (fun c : expr * bool => let '(e, b) := c in Bool.eqb (can_be_removed unbound_h e) b).
+Definition check_simplify_not :=
+  mismatches (fun c : expr * option expr => let '(e, r) := c in option_eqb expr_eqb (maybe_simplify_not e) r).
+
+(* (left, right, strict, Go equal, Go ok, Go ValuesLookTheSame) *)
+Definition check_equality_cases :=
+  mismatches (fun c : expr * expr * bool * bool * bool * bool =>
+    let '(l, r, strict, eq, ok, same) := c in
+    let '(meq, mok) := check_equality l r strict in
+    Bool.eqb meq eq && Bool.eqb mok ok && Bool.eqb (values_look_the_same l r) same).
+
+Definition check_join_left :=
+  mismatches (fun c : binop * expr * expr * expr => let '(op, a, b, res) := c in expr_eqb (join_left op a b) res).
+
+Definition check_simplify_boolean :=
+  mismatches (fun c : expr * expr => let '(e, res) := c in expr_eqb (simplify_boolean unbound_h e) res).
+
+Definition check_simplify_unused :=
+  mismatches (fun c : expr * bool * option expr =>
+    let '(e, noOC, res) := c in
+    match simplify_unused unbound_h noOC e, res with
+    | UNil, None => true
+    | UExpr x, Some y => expr_eqb x y
+    | _, _ => false
+    end).
+
+Definition check_mangle_if :=
+  mismatches (fun c : expr * expr * expr * bool * bool * expr =>
+    let '(t, y, n, noN, noOC, res) := c in
+    match mangle_if unbound_h noN noOC t y n with
+    | Some x => expr_eqb x res
+    | None => false
+    end).
+
+(* ---- numeric folding ---------------------------------------------------------- *)
+(* FoldBinaryOperator on two number literals: (op, left bits, right bits, kind, payload)
+   kind 0: not folded; 1: number (payload = bits); 2: boolean (payload 0/1) *)
+Definition spec_int_op (op : binop) (l r : num) : option Z :=
+  (* ECMA-262 13.15.3 ApplyStringOrNumericBinaryOperator -> Number::leftShift etc. *)
+  let shift := spec_ToUint32 r mod 32 in
+  match op with
+  | BShl => let v := (spec_ToInt32 l * 2 ^ shift) mod 2 ^ 32 in Some (if 2 ^ 31 <=? v then v - 2 ^ 32 else v)
+  | BShr => Some (spec_ToInt32 l / 2 ^ shift)
+  | BUShr => Some (spec_ToUint32 l / 2 ^ shift)
+  | BBitAnd => Some (Z.land (spec_ToInt32 l) (spec_ToInt32 r))
+  | BBitOr => Some (Z.lor (spec_ToInt32 l) (spec_ToInt32 r))
+  | BBitXor => Some (Z.lxor (spec_ToInt32 l) (spec_ToInt32 r))
+  | _ => None
+  end.
+
+Definition fold_nn_ok (c : binop * Z * Z * Z * Z) : bool :=
+  let '(op, lb, rb, kind, payload) := c in
+  let l := num_of_bits lb in
+  let r := num_of_bits rb in
+  match fold_num_num cvt_amd64 op l r with
+  | FNone => kind =? 0
+  | FNum n => (kind =? 1) && num_same n (num_of_bits payload)
+              && match spec_int_op op l r with Some z => num_same (num_of_Z z) (num_of_bits payload) | None => true end
+  | FBool b => (kind =? 2) && Bool.eqb b (payload =? 1)
+  end.
+Definition check_fold_nn := mismatches fold_nn_ok.
+
+(* math.Pow through FoldBinaryOperator: (x bits, y bits, result bits, agrees with the
+   specification's special cases, as judged by Go: unused); the model must agree
+   whenever it decides by a special case *)
+Definition pow_ok (c : Z * Z * Z) : bool :=
+  let '(xb, yb, rb) := c in
+  match go_pow_special (num_of_bits xb) (num_of_bits yb) with
+  | Some r => num_same r (num_of_bits rb)
+  | None => true
+  end.
+Definition check_pow := mismatches pow_ok.
+
+(* special cases of the specification on the real result; the three families of
+   known finding B are excluded by the harness while that finding reproduces *)
+Definition pow_spec_ok (c : Z * Z * Z) : bool :=
+  let '(xb, yb, rb) := c in
+  match spec_exponentiate_special (num_of_bits xb) (num_of_bits yb) with
+  | Some r => num_same r (num_of_bits rb)
+  | None => true
+  end.
+Definition check_pow_spec := mismatches pow_spec_ok.
+
+(* StringToEquivalentNumberValue: (string, -1 = none | 1 with value) *)
+Definition check_sten :=
+  mismatches (fun c : list Z * option Z => let '(s, r) := c in option_eqb Z.eqb (go_StringToEquivalentNumberValue s) r).
+(* TryToStringOnNumberSafely(n, 10) *)
+Definition check_tostr :=
+  mismatches (fun c : Z * option (list Z) => let '(b, r) := c in
+    option_eqb zlist_eqb (go_TryToStringOnNumberSafely cvt_amd64 (num_of_bits b)) r).
